@@ -131,9 +131,9 @@ def defineOwnDefault (E : Env) (k : Key) (d : Desc) (throw : Bool) : M Obj Bool 
       .ok true { o with props := write k p o.props }
   | some cur =>
     if d.v.isNone ∧ d.w.isNone ∧ d.e.isNone ∧ d.c.isNone then .ok true o        -- 5
-    else if (d.v.all fun v => sameValue E v cur.v)
-          ∧ (d.w = none ∨ d.w = some cur.w) ∧ (d.e = none ∨ d.e = some cur.e)
-          ∧ (d.c = none ∨ d.c = some cur.c) then .ok true o                      -- 6
+    -- 6 ("return true if every field of Desc already occurs in current with the same value") is a
+    --   shortcut without observable effect: in that case 7–10 cannot reject and 12 stores the same
+    --   values; it is folded into 12 so that the stored representation is Desc's.
     else if cur.c = false ∧ d.c = some true then rej                            -- 7.a
     else if cur.c = false ∧ d.e.isSome ∧ d.e ≠ some cur.e then rej              -- 7.b
     else if d.v.isNone ∧ d.w.isNone then                                        -- 8 generic
@@ -387,16 +387,18 @@ def join (args : List Val) : M σ Ret := fun s =>
     let r := (List.range (len - 1)).foldl (fun r k => (r ++ sep) ++ str (k + 1)) (str 0)   -- 7–10
     .ok (Ret.val (.str r)) s                                                         -- 11
 
+/-- §15.4.4.4 step 5.b / 5.c for one item E -/
+def concatItem : CArg → List (Option Val)
+  | .v x => [some x]          -- 5.c
+  | .arr es => es             -- 5.b: present elements are copied, absent ones only advance n
+
 /-- §15.4.4.4 concat -/
 def concat (items : List CArg) : M σ Ret := fun s =>
   let ofThis : List (Option Val) :=
     if O.isArr s then
       (List.range (O.len s)).map fun k => if O.has s k then some (O.get s k) else none   -- 5.b.iii
     else [some .recv]                                                                    -- 5.c
-  let ofItems : List (Option Val) := items.flatMap fun e =>
-    match e with
-    | .v x => [some x]
-    | .arr es => es
+  let ofItems : List (Option Val) := items.flatMap concatItem
   .ok (Ret.arr (ofThis ++ ofItems)) s
 
 /-- §15.4.4.12 splice -/
